@@ -33,6 +33,27 @@ fn permutations(n: usize) -> Vec<Vec<usize>> {
     out
 }
 
+/// add one assertion element through one of the equivalent public entry points
+fn add_variant(e: &Envelope, a: &Envelope, rng: &mut Rng) -> Envelope {
+    match rng.below(8) {
+        0 => e.add_assertion_envelope(a.clone()).unwrap(),
+        1 => e.add_assertion_envelope_salted(a.clone(), false).unwrap(),
+        2 => e.add_optional_assertion_envelope(Some(a.clone())).unwrap(),
+        3 => e.add_assertion_envelopes(&[a.clone()]).unwrap(),
+        4 => e.add_assertions(&[a.clone()]),
+        5 => e.add_assertions_salted(&[a.clone()], false),
+        6 => e.add_assertion_envelope_if(true, a.clone()).unwrap(),
+        _ => match (a.as_predicate(), a.as_object()) {
+            (Some(p), Some(o)) => match rng.below(3) {
+                0 => e.add_assertion(p, o),
+                1 => e.add_assertion_salted(p, o, false),
+                _ => e.add_optional_assertion(p, Some(o)),
+            },
+            _ => e.add_assertion_envelope(a.clone()).unwrap(),
+        },
+    }
+}
+
 fn collections(ctx: &mut Ctx, rng: &mut Rng, case: u64) {
     // Equal unordered collections built in different insertion orders into fresh collections
     // (fresh RandomState each) must give equal bytes.
@@ -105,11 +126,59 @@ pub fn run(ctx: &mut Ctx) {
             let a: Vec<M> = (0..k).map(|_| g.assertion_element(1)).collect();
             (s, a)
         };
+        // distinct assertions only: one digest must not appear in two different forms (plain and
+        // obscured), otherwise "the same set" is ill-defined - whichever form is added first stays
+        let asr_m: Vec<M> = {
+            let mut seen: HashSet<[u8; 32]> = HashSet::new();
+            asr_m.into_iter().filter(|a| seen.insert(a.tree().digest)).collect()
+        };
+        let k = asr_m.len();
         let subject = gen::build(&subject_m, Route::Plain, &mut rng);
-        let asr: Vec<Envelope> = asr_m.iter().map(|a| gen::build(a, Route::Plain, &mut rng)).collect();
+        let key0 = fresh_key(&mut rng);
+        let mut any_obscured = false;
+        let asr: Vec<Envelope> = asr_m
+            .iter()
+            .map(|a| {
+                let e = gen::build(a, Route::Plain, &mut rng);
+                // an assertion element may itself be obscured (same digest, legitimate assertion element)
+                match rng.below(10) {
+                    0 => {
+                        any_obscured = true;
+                        e.elide()
+                    }
+                    1 => {
+                        any_obscured = true;
+                        e.compress().unwrap()
+                    }
+                    2 => {
+                        any_obscured = true;
+                        e.encrypt_subject(&key0).unwrap()
+                    }
+                    _ => e,
+                }
+            })
+            .collect();
+        if any_obscured {
+            ctx.count("cases_with_obscured_assertion_elements");
+        }
         let model = M::Node(Box::new(subject_m.clone()), asr_m.clone());
-        let want = model.bytes();
         let want_tree = model.tree();
+        // expected bytes: the model's canonical bytes; with obscured elements (whose bytes the model
+        // cannot predict) the reference is the first assembly, which must itself match the model's digests
+        let want = if !any_obscured {
+            model.bytes()
+        } else {
+            let mut e = subject.clone();
+            for a in &asr {
+                e = e.add_assertion_envelope(a.clone()).unwrap();
+            }
+            let t = tree_of(&e);
+            if t.digest != want_tree.digest {
+                ctx.violation("obscured-elements/digest", "node assembled from obscured assertion elements has another digest than the model", J::Null);
+            }
+            check_spec(ctx, &e, "assembled from obscured elements");
+            env_bytes(&e)
+        };
         ctx.nontrivial(want_tree.shape_hash());
         let subject_bytes = env_bytes(&subject);
         let replay = |extra: &str| J::obj(vec![("subject_hex", J::s(hex::encode(&subject_bytes))), ("assertions_hex", J::Arr(asr.iter().map(jhex).collect())), ("note", J::s(extra))]);
@@ -119,10 +188,33 @@ pub fn run(ctx: &mut Ctx) {
         ctx.count(&format!("exhaustive_permutations_k{}", k));
         for perm in &perms {
             ctx.eval();
+            let mut r3 = rng.fork();
             let r = trap::guard(|| {
                 let mut e = subject.clone();
-                for &i in perm {
-                    e = e.add_assertion_envelope(asr[i].clone()).unwrap();
+                match r3.below(4) {
+                    // whole batch at once, with repetitions inside the batch
+                    0 | 1 => {
+                        let mut batch: Vec<Envelope> = perm.iter().map(|&i| asr[i].clone()).collect();
+                        let extra = r3.below(3);
+                        for _ in 0..extra {
+                            let x = batch[r3.below(batch.len())].clone();
+                            let pos = r3.below(batch.len() + 1);
+                            batch.insert(pos, x);
+                        }
+                        e = match r3.below(3) {
+                            0 => e.add_assertion_envelopes(&batch).unwrap(),
+                            1 => e.add_assertions(&batch),
+                            _ => e.add_assertions_salted(&batch, false),
+                        };
+                    }
+                    _ => {
+                        for &i in perm {
+                            e = add_variant(&e, &asr[i], &mut r3);
+                            if r3.chance(1, 5) {
+                                e = add_variant(&e, &asr[i], &mut r3);
+                            }
+                        }
+                    }
                 }
                 e
             });
@@ -165,6 +257,17 @@ pub fn run(ctx: &mut Ctx) {
                 ctx.count("remove_restores_checked");
                 if env_bytes(&back) != prev {
                     ctx.violation("remove-does-not-restore", "removing the assertion just added did not restore the previous envelope", replay("remove"));
+                }
+            }
+            // replacing an assertion by itself, and by another one and back, restores the envelope
+            if rng.chance(1, 3) {
+                ctx.count("replace_checked");
+                let same = with.replace_assertion(asr[i].clone(), asr[i].clone()).unwrap();
+                let other = Envelope::new_assertion("c07-temp", case);
+                let there = with.replace_assertion(asr[i].clone(), other.clone()).unwrap();
+                let back = there.replace_assertion(other, asr[i].clone()).unwrap();
+                if env_bytes(&same) != env_bytes(&with) || env_bytes(&back) != env_bytes(&with) {
+                    ctx.violation("replace-does-not-restore", "replace_assertion(a, a) or replace there-and-back changed the envelope", replay("replace"));
                 }
             }
             e = with;
